@@ -32,7 +32,8 @@
 //   end                   settle (resolve in-flight sources until nothing is pending), destroy, account
 //
 // output: `<op> <result> p=<acts executed per source, `e` appended once the body has returned or thrown>` ; events `a<k>=<arg>` (source k received arg),
-// `r<k>=<arg>|dead` (source k fetched its argument again after an await: act `ar`) and `got=<result>` (a pending fnext/cnext completed), sorted.
+// `r<k>=<arg>` (source k fetched its argument again after an await: act `ar`) and `got=<result>` (a pending fnext/cnext completed), sorted.
+// (<arg> is printed as `dead` when the object read is not alive any more and as `moved` when it is a moved-from object)
 #include "common.h"
 #include <cocls/generator.h>
 #include <cocls/generator_aggregator.h>
@@ -76,18 +77,24 @@ static std::mutex g_targ_mx;
 static std::set<const targ *> g_targ_live;
 static std::atomic<long> g_argbad{0};   // stress: late reads that differ from the argument the source was charged with
 struct targ {
-    int v;
-    explicit targ(int x) : v(x) { reg(); }
-    targ(const targ &o) : v(o.read()) { reg(); }
-    targ &operator=(const targ &o) { v = o.read(); return *this; }
+    // the number travels in a heap-allocated string (longer than any small-string buffer): copying copies it,
+    // moving takes it away from the source object, as with any std::string / std::vector argument
+    std::string txt;
+    explicit targ(int x) : txt("argument-carried-in-a-heap-allocated-string:" + std::to_string(x)) { reg(); }
+    targ(const targ &o) : txt(o.txt) { reg(); }
+    targ(targ &&o) noexcept : txt(std::move(o.txt)) { reg(); }
+    targ &operator=(const targ &o) { txt = o.txt; return *this; }
+    targ &operator=(targ &&o) noexcept { txt = std::move(o.txt); return *this; }
     ~targ() {
         std::lock_guard _(g_targ_mx);
         g_targ_live.erase(this);
     }
-    // -1 = the object is not alive
+    // -1 = the object is not alive (its string is not touched then), -2 = alive but moved-from (empty)
     int read() const {
         std::lock_guard _(g_targ_mx);
-        return g_targ_live.count(this) ? v : -1;
+        if (!g_targ_live.count(this)) return -1;
+        auto p = txt.rfind(':');
+        return p == std::string::npos ? -2 : atoi(txt.c_str() + p + 1);
     }
 private:
     void reg() {
@@ -396,7 +403,7 @@ struct case_runner {
     void flush_args() {
         std::lock_guard _(logmx);
         if (has_arg) {
-            auto val = [](int v) { return v < 0 ? std::string("dead") : std::to_string(v); };
+            auto val = [](int v) { return v == -1 ? std::string("dead") : v == -2 ? std::string("moved") : std::to_string(v); };
             std::sort(arglog.begin(), arglog.end());
             for (auto &p : arglog) evs.push_back("a" + std::to_string(p.first) + "=" + val(p.second));
             for (auto &p : rlog) evs.push_back("r" + std::to_string(p.first) + "=" + val(p.second));
